@@ -708,6 +708,63 @@ def multi_visit_size(nodes, cap=60000):
     return count[0]
 
 
+def coq_graph_case(root, p, timeout=20):
+    """Run lark's ForestToParseTree(resolve_ambiguity=True) with rule-identity callbacks on the forest (cyclic or
+    not) and emit the case for Forest/GraphResolveCheck.v: (label, family) pairs in insertion order, the
+    observed `children` order of every symbol node, the root label and the tree returned (None if none).
+    Labels as in Forest/ExplicitBuild.v over lexemes = token ids; the rules are let-bound once per case."""
+    from lark import Tree
+    from lark.parsers.earley_forest import ForestSumVisitor, ForestToParseTree
+    fsv = p.parser.parser.forest_sum_visitor
+    tr = ForestToParseTree(Tree, id_callbacks(p), fsv and fsv(), True, False)
+    res = with_timeout(timeout, tr.transform, root)
+    maps = {}
+    nodes = export_graph(root, p, maps)          # after the walk: `children` order as the walk saw it
+    rules, terms = tables(p)
+    nts = {}
+    tms = {}
+
+    def nt(n):
+        return nts.setdefault(n, len(nts))
+
+    def tm(n):
+        return tms.setdefault(n, len(tms))
+    rule_terms = []
+    for r in rules:
+        rule_terms.append('(mkRule %d %s)' % (nt(r['origin']), L(['(T %d)' % tm(n) if t else '(NT %d)' % nt(n)
+                                                                  for t, n in r['exp']]) if r['exp'] else '(@nil symbol)'))
+
+    def label(i):
+        nd = nodes[i]
+        if nd['k'] == 'T':
+            return '(NTok nat %d %d 0 0)' % (tm(nd['term']), nd['tid'])
+        if nd['inter']:
+            ri, ptr = nd['name'].split('.')
+            return '(NInter nat (r %s) %s %d %d)' % (ri, ptr, nd['start'], nd['end'])
+        return '(NSym nat %d %d %d)' % (nt(str(nd['name'])), nd['start'], nd['end'])
+
+    def fam(k):
+        pk = nodes[k]
+        o = lambda x: 'None' if x is None else '(Some %s)' % label(x)
+        return '(r %d, %s, %s)' % (pk['rule'], o(pk['left']), o(pk['right']))
+    fams, tab = [], []
+    for i, nd in enumerate(nodes):
+        if nd['k'] == 'S':
+            for k in nd['fams']:
+                fams.append('(%s, %s)' % (label(i), fam(k)))
+            tab.append('(%s, %s)' % (label(i), L([fam(k) for k in nd['order']])))
+
+    def dt(t):
+        from lark import Token
+        if isinstance(t, Token):
+            return '(DL nat %d %d)' % (tm(str(t.type)), maps['tids'][id(t)])
+        ks = [dt(c) for c in t.children]
+        return '(DN nat (r %d) %s)' % (int(t.data), L(ks) if ks else '(@nil (dt nat))')
+    obs = 'None' if res is None else '(Some %s)' % dt(res)
+    return ('(let r := fun k : nat => nth k %s (mkRule 0 []) in (%s, %s, %s, %s))'
+            % (L(rule_terms), L(fams) if fams else '(@nil (nlabel nat * family nat))', L(tab), label(0), obs)), res
+
+
 def trace_discipline(events, single):
     """The documented contract of the walk, checked on a recorded callback trace: in/out are properly nested,
     on_cycle(node, path) is called with the nodes entered and not yet exited and node is one of them, no node is
